@@ -1,13 +1,65 @@
 """C08 - Rendering is total and allocation-free on display-scale inputs  (metadata + implementation-side search)"""
 from common import *
 
-CLAIMED = False  # until theorem parts are merged
+CLAIMED = True
 LEVEL = 'proof'
-LEVEL_TEXT = 'TODO'
-LEVEL_NOTE = 'TODO'
-RULE = ('search p_total: every drawable family x boundary-biased display-scale values (coordinates and sizes from '
-        '{0,1,2,63..65,255..257,240,320,480,1023,1024} and negatives, stroke widths {0,1,2,3,63..65,127,128}, line heights up to 1024 px / 400 %), '
-        'in a build with overflow checks and debug assertions, counting global allocator, step budget on every iterator.')
+LEVEL_TEXT = (
+    'Proof: coq/Model/Overflow.v gives, for each covered Rust function f, an executable boolean f_ok that conjoins, in source order, '
+    '"this intermediate fits its Rust type (i32/u32/i64/u64/usize), this divisor is not zero, this debug_assert holds" for every arithmetic '
+    'site of f and of the callees it reaches. coq/Properties/C08.v proves (lia/nia, no axioms) C08_<f>_total: f_ok = true for ALL '
+    'display-scale inputs (|coordinate| <= 1024, extents <= 1024, stroke widths and offsets <= 128, edge lines of thick segments within '
+    '+-1280, mono fonts up to 64 px cells and 65536 characters, line heights <= 1024 px / 400 %) for Point/Size/Rectangle operations, '
+    'PrimitiveStyle stroke/fill areas, Circle/Ellipse contains + center_2x + thresholds + offset, EllipseQuadrant, CornerRadii::confine, '
+    'Line delta/perpendicular/midpoint, BresenhamParameters, the complete Line::points loop (exactly major_length <= 2049 steps), '
+    'increase/decrease_error, next_all/previous_all and ParallelsIterator::next per step with inductive invariants, '
+    'ParallelsIterator::new / ThickPoints::new (i64 threshold), LinearEquation, IntersectionParams (i64 numerators, round_div), the join '
+    'points (|coordinate| <= 13108481 proved: SaturatingAs never saturates, `intersection - mid` cannot overflow) and the miter test, Triangle area_doubled / contains (whole path), mono text layout (baseline offset, measure_string, draw_string, line advance), '
+    'LineHeight, ImageRaw bytes_per_row / data_width / draw / draw_sub_image / pixel, ContiguousPixels (every step safe; stops after '
+    'exactly w*h+1 calls) and Cropped. Tie 1 (translator): translate/gen_arith.py regenerates from the tree under test the '
+    'identifier-free skeleton of every arithmetic / cast / index / unwrap site of every non-test function of 22 source files; '
+    'C08_sites_covered (vm_compute reflection) requires each to equal the skeleton the predicate was written against, be literal-only, '
+    'or be in the explicit unmodelled list, so a new or changed unchecked operation in a covered function breaks a proof obligation. '
+    'Tie 2 (correspondence): both oracles evaluate f_ok versus "did the real function panic" (overflow checks + debug assertions on) '
+    'on inputs straddling every boundary (2^15, 2^16, 2^31, 2^32, 2^63 ...), far outside display scale. '
+    'Search p_total (implementation only): every drawable family, null font, adapter stacks, default and fixed_point builds: no panic, '
+    '0 heap allocations, step budget 16 x bounding-box area.')
+LEVEL_NOTE = (
+    'NOT modelled, hence not proved: heap allocation of the compiled crate (supporting evidence only: the counting global allocator of '
+    'the harness reads 0 around every library call of p_total; the translator asserts #![no_std] in both lib.rs and finds no alloc::/std:: '
+    'path outside test code) and the internals of the dependency crates (az, micromath, fixed, float-cmp, byteorder). '
+    'The f_ok predicates are hand-written; they are tied to the code by the skeleton check (structure of the arithmetic, not its operands) '
+    'and by differential testing, not proved equal to the Rust code. Totality of whole draw() calls is assembled from per-function and '
+    'per-step theorems only for Line::points, ContiguousPixels and text lines; for thick lines, joins (Line::extents), scanline fills, arcs '
+    'and sectors the composition is covered by the p_total search, not by a theorem (see PARTIAL). usize is a parameter (>= 32 bit) in the '
+    'theorems and 64 bit in the correspondence. debug_assert!s are treated as panic sites (the harness profile enables them).')
+RULE = ('correspondence ok_*: f_ok (model) vs panic / no panic (implementation, overflow checks + debug assertions) for 17 suites on '
+        'boundary-straddling inputs (i32/u32 edges, 2^15..2^16 for products, 2^63 for the thick-line threshold, custom mono fonts, '
+        'verif_hooks line equations); distinct = distinct case lines, every result is OK or PANIC (both verdicts occur in every suite). '
+        'search p_total: every drawable family x boundary-biased display-scale values (coordinates and sizes from '
+        '{0,1,2,63..65,255..257,240,320,480,1023,1024} and negatives, corner-biased vertices, stroke widths {0,1,2,3,63..65,127,128}, '
+        'line heights up to 1024 px / 400 %, display-scale images, null font x 4 baselines x 3 alignments), every query and draw, 9 adapter '
+        'stacks (clipped / cropped / translated / colour-converted with degenerate areas) and out-of-range rejections, in a build with '
+        'overflow checks and debug assertions, counting global allocator, explicit step budget; arc/sector cases and every 4th other case '
+        'again on the fixed_point build (p_fixed_point lines).')
+ASSUMPTIONS = ['display scale as stated in each theorem (ds_* / edge_* predicates of coq/Model/Overflow.v); outside it f_ok may be false '
+               '(and the code then panics with overflow checks: the correspondence suites exercise exactly that)',
+               'the join theorems (C08_join_edges_total ...) take the four edge lines of the thick segments as inputs, within +-1280 '
+               '(= display scale + twice the maximal stroke width); that Line::extents stays in this range is not proved']
+TRUSTED = ['translate/gen_arith.py (tokeniser-level skeletons; operands are not compared, only the shape of the arithmetic)',
+           'the mapping function -> predicate in translate/record_skeletons.py / the `recorded` table is maintained by hand',
+           'modelled, not verified: az::SaturatingAs, i32 `/` as Z.quot, u32 and usize `/` as Z.div, `as` between equal-width integers as wrap']
+PARTIAL = [
+    'unmodelled functions of the covered files (explicit list unmodelled_fns in coq/Model/Overflow.v): Line::extents, '
+    'OriginLinearEquation::with_angle (float / fixed trigonometry), Triangle::is_collapsed, Triangle::sorted_clockwise and the From/TryFrom '
+    'conversions (constant indices into fixed arrays), Index for Point/Size, Triangle::from_slice, ImageRaw::new_const (documented panics)',
+    'thick lines and joins: per-step theorems with inductive invariants (C08_next_all_total, C08_previous_all_total, '
+    'C08_increase_error_total, C08_decrease_error_total, C08_parallels_next_total) but no theorem for the whole ParallelsIterator / '
+    'ThickPoints / LineJoin::from_points loop (Line::extents unmodelled); covered by p_total',
+    'no ok_* correspondence (skeleton tie + p_total only) for: circle/ellipse offset, EllipseQuadrant, increase/decrease_error, next_all / '
+    'previous_all, ParallelsIterator::next, miter, text lines, ImageRaw draw/pixel, ContiguousPixels, Cropped (image and raw parts: C08_image, C08_raw)',
+    'files outside translate/gen_arith.py FILES (arc, sector, polyline, scanline fills, styled iterators, mono font draw target, framebuffer) '
+    'are covered by p_total only',
+]
 
 B = [0, 1, 2, 63, 64, 65, 255, 256, 257, 240, 320, 480, 1023, 1024]
 W = [0, 1, 2, 3, 63, 64, 65, 127, 128]
@@ -18,19 +70,262 @@ def cb(rng):
     return v if rng.random() < 0.6 else -v
 
 
+def xb(rng):
+    k = rng.random()
+    if k < 0.75:
+        return rng.choice([-1024, -1023, -1000, 1000, 1023, 1024])
+    if k < 0.9:
+        return rng.choice([0, 1, -1, 2, -2])
+    return cb(rng)
+
+
 def eb(rng):
     return rng.choice(B) if rng.random() < 0.8 else rng.randrange(0, 1025)
 
 
+# ---- correspondence: f_ok (model) vs "did the real function panic" (overflow checks on), on values straddling
+# the boundary of every predicate ----------------------------------------------------------------------------
+I32 = 2 ** 31
+EDGES_I = [0, 1, -1, 2, -2, 3, 1023, 1024, -1024, 2 ** 15 - 1, 2 ** 15, 2 ** 15 + 1, -2 ** 15, 46340, 46341, -46341, 2 ** 16 - 1, 2 ** 16, 2 ** 16 + 1,
+           2 ** 20, 2 ** 30 - 1, 2 ** 30, 2 ** 30 + 1, -2 ** 30, -2 ** 30 - 1, I32 - 2, I32 - 1, -I32 + 1, -I32]
+EDGES_U = [0, 1, 2, 3, 4, 5, 1023, 1024, 2 ** 15, 46340, 46341, 2 ** 16 - 1, 2 ** 16, 2 ** 16 + 1, 2 ** 20, 2 ** 30, I32 - 2, I32 - 1, I32, I32 + 1,
+           2 ** 32 - 2, 2 ** 32 - 1]
+
+
+def ei(rng, small=0.25):
+    k = rng.random()
+    if k < small:
+        return rng.randrange(-40, 41)
+    if k < 0.8:
+        v = rng.choice(EDGES_I) + rng.choice([0, 0, 0, 1, -1, 7, -7])
+        return max(-I32, min(I32 - 1, v))
+    return rng.randrange(-I32, I32)
+
+
+def eu(rng, small=0.25):
+    k = rng.random()
+    if k < small:
+        return rng.randrange(0, 41)
+    if k < 0.8:
+        return max(0, min(2 ** 32 - 1, rng.choice(EDGES_U) + rng.choice([0, 0, 0, 1, -1, 7, -7])))
+    return rng.randrange(0, 2 ** 32)
+
+
+def near(rng, c, spread=3):
+    return c + rng.randrange(-spread, spread + 1)
+
+
+def ci(v):
+    return max(-I32, min(I32 - 1, v))
+
+
+def cu(v):
+    return max(0, min(2 ** 32 - 1, v))
+
+
+def isqrt(n):
+    import math
+    return math.isqrt(n)
+
+
+def cases(tier, rng):
+    n = 2500 if tier == 'quick' else 25000
+    for _ in range(n):
+        a, b, c, d = ei(rng), ei(rng), ei(rng), ei(rng)
+        yield J('ok_point', rng.choice(['add', 'sub', 'mul', 'div', 'neg', 'abs', 'cmul', 'cdiv', 'addassign']), a, b, c, d)
+        # sums / differences / products right at the i32 boundary
+        x = ei(rng)
+        yield J('ok_point', 'add', x, 0, ci(near(rng, I32 - 1 - x) if x >= 0 else near(rng, -I32 - x)), 0)
+        yield J('ok_point', 'sub', 0, x, 0, ci(near(rng, x - I32 + 1) if x >= 0 else near(rng, x + I32)))
+        k = rng.choice([2, 3, 7, 255, 46340, 46341, 65536, -2, -3, -46341, -65536])
+        yield J('ok_point', 'mul', ci(near(rng, (I32 - 1) // abs(k)) * rng.choice([1, -1])), 1, k, 0)
+        yield J('ok_point', 'div', rng.choice([-I32, -I32 + 1, I32 - 1, a]), rng.choice([-I32, b]), rng.choice([-1, 0, 1, 2, c]), 0)
+        yield J('ok_point', rng.choice(['addsize', 'subsize']), a, b, eu(rng), eu(rng))
+        u1, u2, u3, u4 = eu(rng), eu(rng), eu(rng), eu(rng)
+        yield J('ok_size', rng.choice(['add', 'sub', 'mul', 'div', 'cmul', 'cdiv', 'sat']), u1, u2, u3, u4)
+        yield J('ok_size', 'add', u1, 0, cu(near(rng, 2 ** 32 - 1 - u1)), 0)
+        yield J('ok_size', 'sub', u1, u2, cu(near(rng, u1)), cu(near(rng, u2)))
+        k = rng.choice([2, 3, 255, 65535, 65536, 65537])
+        yield J('ok_size', 'mul', cu(near(rng, (2 ** 32 - 1) // k)), 1, k, 0)
+        # rectangles: corners near the i32 edge, extents near 2^31 / 2^32
+        r = (ei(rng), ei(rng), eu(rng), eu(rng))
+        r2 = (ei(rng), ei(rng), eu(rng), eu(rng))
+        xe = ci(rng.choice([I32 - 1, I32 - 2, 2 ** 30, 5, -I32]) - rng.choice([0, 1, 2, 1000]))
+        rb = (xe, ei(rng), cu(near(rng, I32 - 1 - xe)) if xe >= 0 else eu(rng), eu(rng))
+        for rr in (r, rb):
+            yield J('ok_rect', rng.choice(['br', 'center', 'withcenter', 'rows']), *rr)
+            yield J('ok_rect', 'contains', *rr, ci(rr[0] + rng.choice([-1, 0, 1])), ci(rr[1] + rng.choice([-1, 0, 1])))
+            yield J('ok_rect', 'anchor', *rr, rng.randrange(3), rng.randrange(3))
+            yield J('ok_rect', 'resized', *rr, eu(rng), eu(rng), rng.randrange(3), rng.randrange(3))
+            yield J('ok_rect', 'offset', *rr, rng.choice([ei(rng), rng.randrange(-130, 131), -I32, I32 - 1]))
+            yield J('ok_rect', 'styledbb', *rr, eu(rng), rng.randrange(3))
+            yield J('ok_rect', 'inter', *rr, *r2)
+            yield J('ok_rect', 'envelope', *rr, *r2)
+        yield J('ok_rect', 'corners', a, b, c, d)
+        yield J('ok_rect', 'corners', a, 0, ci(near(rng, a - I32 + 1) if a >= 0 else near(rng, a + I32)), 0)
+        # circle: diameter near 2^16 (u32 pow), distances near sqrt(2^31) / sqrt(2^30)
+        dd = rng.choice([0, 1, 2, 3, 4, 5, 100, 65535, 65536, 65537, 2 ** 20, eu(rng)])
+        cx, cy = rng.choice([0, 10, -1000, ei(rng)]), rng.choice([0, -10, 1000])
+        off = rng.choice([0, 5, 16383, 16384, 23169, 23170, 23171, 32767, 32768, 100000])
+        yield J('ok_circle_contains', cx, cy, dd, max(-I32, min(I32 - 1, cx + off)), cy + rng.choice([0, 3, off]))
+        # ellipse: w*h near 2^32 (u64 product of squares), w = h near 2^16, far points (b*x near 2^64)
+        w = rng.choice([1, 2, 3, 320, 1024, 65535, 65536, 65537, 2 ** 20, 2 ** 31, 2 ** 32 - 1, eu(rng)])
+        h = rng.choice([w, near(rng, (2 ** 32) // max(w, 1), 2), 240, eu(rng)])
+        h = max(0, min(2 ** 32 - 1, h))
+        far = rng.choice([0, 100, 2 ** 15, 2 ** 20, 2 ** 24, 2 ** 28, 2 ** 29, 2 ** 30 - 1])
+        yield J('ok_ellipse_contains', rng.choice([0, -500, 7]), 0, w, h, far, rng.choice([0, far, -far]))
+        yield J('ok_ellipse_contains', cx, 0, eu(rng), eu(rng), ei(rng), ei(rng))
+        # confine: radii sums near 2^32, products near 2^32
+        sides = [rng.choice([0, 1, 10, 100, 1024, 65535, 65536, 65537, 2 ** 31, eu(rng)]) for _ in range(2)]
+        rad = [rng.choice([0, 1, 5, 60, 1000, 65536, 2 ** 31 - 1, 2 ** 31, 2 ** 31 + 1, 2 ** 32 - 1, eu(rng)]) for _ in range(8)]
+        yield J('ok_confine', *sides, *rad)
+        rad = [rng.choice([0, 1, 5, 60, 1000, 4000, 65535, 65536, 65537]) for _ in range(8)]
+        yield J('ok_confine', rng.choice([10, 1000, 65535, 65536, 65537]), rng.choice([10, 1000, 65536]), *rad)
+        # lines: short lines next to the i32 edge (the run and its trailing update), long deltas (2 * delta)
+        ex, ey = rng.choice([I32 - 1, -I32, I32 - 20, -I32 + 20, 0, 2 ** 30]), rng.choice([I32 - 1, -I32, 0, 77])
+        dx, dy = rng.randrange(-12, 13), rng.randrange(-12, 13)
+        cl = lambda v: max(-I32, min(I32 - 1, v))
+        yield J('ok_line_points', cl(ex - dx), cl(ey - dy), ex, ey)
+        yield J('ok_line_points', ex, ey, cl(ex - dx), cl(ey - dy))
+        big = rng.choice([2 ** 30 - 1, 2 ** 30, 2 ** 30 + 1, I32 - 1, 2 ** 31 - 2])
+        yield J('ok_line_misc', rng.choice(['delta', 'midpoint']), rng.choice([0, -1, 1, -big]), ei(rng), rng.choice([big, 0, -big]), ei(rng))
+        yield J('ok_line_misc', rng.choice(['delta', 'midpoint']), a, b, c, d)
+        # thick line construction: (2w)^2 * len^2 near 2^63, len^2 near 2^31 (i32 length_squared), deltas near 2^30
+        L = rng.choice([1, 2, 5, 100, 1000, 23170, 32767, 32768, 32769, 46340, 46341, 46342, 2 ** 20, 2 ** 29, 2 ** 30 - 1, 2 ** 30, 2 ** 30 + 1])
+        L2 = L * L if rng.random() < 0.5 else 2 * L * L
+        ww = rng.choice([0, 1, 2, 30, 128, near(rng, isqrt((2 ** 63 - 1) // max(L2, 1)) // 2, 2), 2 ** 30, 2 ** 31 - 1, 2 ** 31, 2 ** 32 - 1, eu(rng)])
+        ww = max(0, min(2 ** 32 - 1, ww))
+        sx, sy = ci(rng.choice([0, 0, 5, -1000, I32 - 1 - L, -I32])), rng.choice([0, 3, -7])
+        if L2 == L * L:
+            yield J('ok_thick_new', sx, sy, cl(sx + L), sy, ww)
+            yield J('ok_thick_new', sy, sx, sy, cl(sx + L), ww)
+        else:
+            yield J('ok_thick_new', sx, sy, cl(sx + L), cl(sy + L), ww)
+            yield J('ok_thick_new', cl(sx + L), cl(sy + L), sx, sy, ww)
+        yield J('ok_thick_new', a, b, a, b, ww)
+        # triangles: products near 2^31 need coordinates near 2^15 / 2^16; query = vertex, centroid, or box corner
+        m = rng.choice([10, 1000, 23170, 32768, 46341, 65536, 2 ** 17])
+        tv = [rng.randrange(-m, m + 1) for _ in range(6)]
+        if rng.random() < 0.3:
+            tv[rng.randrange(6)] = rng.choice([m, -m])
+        q = rng.choice([(tv[0], tv[1]), (tv[4], tv[5]), ((tv[0] + tv[2] + tv[4]) // 3, (tv[1] + tv[3] + tv[5]) // 3),
+                        (min(tv[0], tv[2], tv[4]), max(tv[1], tv[3], tv[5])), (m + 5, 0)])
+        yield J('ok_tri_contains', *tv, *q)
+        if m <= 1000:
+            yield J('ok_tri_contains', *tv, rng.randrange(-m, m + 1), rng.randrange(-m, m + 1))
+        # line equations / intersections (verif_hooks): i32 dot products and determinants need coordinates near 2^15
+        m = rng.choice([10, 1000, 1280, 16384, 23170, 23171, 32767, 32768, 46340, 46341, 65536, 2 ** 20, 2 ** 30])
+        lv = [rng.choice([m, -m, m - 1, 1 - m, rng.randrange(-m, m + 1), 0, 1]) for _ in range(8)]
+        yield J('ok_linear_equation', *lv[:6])
+        yield J('ok_line_intersection', *lv)
+        yield J('ok_line_intersection', lv[0], lv[1], lv[2], lv[3], lv[2], lv[3], lv[6], lv[7])
+        # mono font layout with a custom font: cell / spacing near 2^16 and 2^31, long lines, positions at the i32 edge
+        fcw, fsp = rng.choice([0, 6, 10, 65535, 65536, 2 ** 31 - 1, 2 ** 31, 2 ** 32 - 1, eu(rng)]), rng.choice([0, 0, 1, 2, 65536, 2 ** 32 - 1, eu(rng)])
+        fch, fbl = rng.choice([0, 1, 2, 20, 2 ** 31 - 1, 2 ** 31, 2 ** 32 - 1, eu(rng)]), rng.choice([0, 15, 2 ** 31, eu(rng)])
+        nn = rng.choice([0, 1, 2, 3, 100, 65535, 65536, 65537, cu((2 ** 32 - 1) // max(1, min(fcw + fsp, 2 ** 32 - 1))) % 70000])
+        fx = rng.choice([0, 5, -1000, I32 - 1, I32 - 100, -I32, ei(rng)])
+        fy = rng.choice([0, 5, -I32, -I32 + 10, -I32 + 19, I32 - 1, ei(rng)])
+        yield J('ok_measure', fx, fy, rng.randrange(4), nn, rng.randrange(2), fcw, fch, fsp, fbl, rng.choice([0, 17, 2 ** 32 - 1, eu(rng)]), rng.choice([0, 1, 2 ** 31, eu(rng)]))
+        yield J('ok_draw_plain', fx, fy, rng.randrange(4), nn, 0, fcw, fch, fsp, fbl, 0, 1)
+        yield J('ok_measure', ei(rng), ei(rng), rng.randrange(4), rng.randrange(0, 40), rng.randrange(2), rng.choice([4, 6, 10]), rng.choice([6, 10, 20]), rng.choice([0, 1]), 4, 6, 1)
+        yield J('ok_line_height', rng.randrange(2), eu(rng), eu(rng))
+        p_ = rng.choice([100, 150, 400, 65536, 65537])
+        yield J('ok_line_height', 1, p_, cu(near(rng, (2 ** 32 - 1) // p_)))
+        bpp = rng.choice([1, 2, 4, 8, 16, 24])
+        yield J('ok_image_new', eu(rng), eu(rng), bpp)
+        yield J('ok_image_new', rng.choice([2 ** 32 - 1, 2 ** 31, 2 ** 30, 2 ** 29]), rng.choice([2 ** 32 - 1, 2 ** 31, 2 ** 30, 2 ** 29 + 1]), bpp)
+        yield J('ok_sub_image', rng.choice([1, 16]), rng.choice([0, 1, 3, 15, 16, -1, ei(rng)]), rng.choice([0, 1, 7, 8, -1, ei(rng)]),
+                rng.choice([0, 1, 5, 16, 2 ** 32 - 1, 2 ** 32 - 3, eu(rng)]), rng.choice([0, 1, 8, 2 ** 32 - 1, eu(rng)]))
+
+
+def trivial(line, res):
+    return res not in ('OK', 'PANIC')
+
+
+def fp_oracle():
+    """second harness binary with `--features fixed_point` (same sources, own target dir; pre-built by setup.sh)"""
+    import os, subprocess
+    v = os.path.dirname(os.path.dirname(os.path.abspath(__file__)))
+    env = dict(os.environ, CARGO_NET_OFFLINE='true', CARGO_TARGET_DIR=os.path.join(v, '.build', 'cargo-fp'))
+    p = subprocess.run('cargo build -j4 --release --offline --features fixed_point', shell=True, cwd=os.path.join(v, 'harness'), env=env,
+                       stdout=subprocess.PIPE, stderr=subprocess.STDOUT, text=True, timeout=3000)
+    exe = os.path.join(v, '.build', 'cargo-fp', 'release', 'eg_oracle')
+    return exe if p.returncode == 0 and os.path.exists(exe) else None
+
+
 def search(tier, rng):
-    n = 1500 if tier == 'quick' else 40000
+    """the p_total batch on the default build, then (verdicts carried by `p_fixed_point` lines) the arc / sector cases and
+    every 4th other case again on the `fixed_point` build of the same harness"""
+    import subprocess
+    lines = list(search_default(tier, rng))
+    yield from lines
+    exe = fp_oracle()
+    if exe is None:
+        yield 'p_fixed_point FAIL class=fixed_point_build the harness does not build with --features fixed_point'
+        return
+    sel = [l for k, l in enumerate(lines) if l.startswith('p_total arc') or l.startswith('p_total sector') or k % 4 == 0]
+    procs = []
+    nsh = 4
+    for j in range(nsh):
+        part = sel[j::nsh]
+        procs.append((part, subprocess.Popen([exe], stdin=subprocess.PIPE, stdout=subprocess.PIPE, stderr=subprocess.DEVNULL, text=True)))
+    import threading
+    outs = {}
+
+    def feed(j, part, p):
+        o, _ = p.communicate('\n'.join(part) + '\n')
+        outs[j] = o.split('\n')
+    th = [threading.Thread(target=feed, args=(j, part, p)) for j, (part, p) in enumerate(procs)]
+    [t.start() for t in th]
+    [t.join() for t in th]
+    for j, (part, _) in enumerate(procs):
+        for k, l in enumerate(part):
+            r = outs[j][k] if k < len(outs[j]) and outs[j][k] else 'MISSING-OUTPUT'
+            yield 'p_fixed_point %s :: %s' % (r, l)
+
+
+def search_default(tier, rng):
+    n = 1500 if tier == 'quick' else 12000
+    # regression inputs of the repaired overflow defects (DESIGN.md section 6, known_findings.txt `fixed:` lines)
     yield 'p_total ellipse 0 0 320 240 S 1 1 3 1'
     yield 'p_total line 0 0 1000 700 S 0 1 30 1'
+    yield 'p_total tri -480 -1 240 909 1 422 S 0 1 1 2'
+    yield 'p_total image 3 3 10 10 7'
+    yield 'p_total tri 10 10 410 10 10 410 S 1 0 0 1'
+    yield 'p_total text 5 -7 0 1 1 0 10 15 3'
     for k in range(n):
         fam = FAMILIES[k % len(FAMILIES)]
         small = rng.random() < 0.35
         e = (lambda r: r.choice([0, 1, 2, 3, 63, 64, 65])) if small else eb
-        case = zoo_case(rng, fam, c=cb, e=e, maxw=0, absolute=True)
+        if fam in ('image', 'subimage') and rng.random() < 0.7:
+            # display-scale images (zoo_case caps them at 40 x 40); one dimension small to bound the work
+            w, h = (eb(rng), rng.choice([0, 1, 2, 3, 8])) if rng.random() < 0.5 else (rng.choice([0, 1, 2, 3, 8]), eb(rng))
+            case = J('image', cb(rng), cb(rng), w, h, rng.randrange(1000))
+            if fam == 'subimage':
+                case = J('subimage', cb(rng), cb(rng), w, h, rng.randrange(1000), rng.randrange(-3, w + 3), rng.randrange(-3, h + 3), eb(rng), eb(rng))
+        elif fam == 'text' and rng.random() < 0.7:
+            lhk = rng.randrange(2)
+            lhv = rng.choice([0, 1, 2, 63, 64, 65, 255, 256, 257, 1023, 1024]) if lhk == 0 else rng.choice([0, 1, 50, 100, 150, 399, 400])
+            case = J('text', cb(rng), cb(rng), rng.randrange(8), rng.randrange(3), rng.randrange(4), lhk, lhv, rng.randrange(16), rng.randrange(12))
+        elif fam in ('tri', 'poly') and rng.random() < 0.3:
+            # long, nearly parallel edges with wide strokes: the join determinants and miter lengths are largest here
+            x, y = cb(rng), cb(rng)
+            dx, dy = rng.choice([1024, -1024, 1000, 700]), rng.choice([1024, -1024, 1, -1, 3, 700])
+            pts = [(x, y), (max(-1024, min(1024, x + dx)), max(-1024, min(1024, y + dy))), (max(-1024, min(1024, x + rng.choice([-1, 0, 1, 2]))), max(-1024, min(1024, y + rng.choice([-2, -1, 1, 2]))))]
+            rng.shuffle(pts)
+            if fam == 'tri':
+                case = J('tri', *[v for p in pts for v in p], 'S', 0, 0, 0, 0)
+            else:
+                case = J('poly', 0, 0, 3, *[v for p in pts for v in p], 'S', 0, 0, 0, 0)
+        elif fam in ('tri', 'poly', 'line') and rng.random() < 0.45:
+            # vertices in the corners / on the edges of the +-1024 square: the largest products and determinants
+            case = zoo_case(rng, fam, c=xb, e=e, maxw=0, absolute=True)
+            if fam == 'poly':
+                # zoo_case halves polyline coordinates; rebuild with full-range vertices
+                nv = rng.choice([2, 3, 3, 4, 5])
+                case = J('poly', 0, 0, nv, *[xb(rng) for _ in range(2 * nv)], 'S', 0, 0, 0, 0)
+        else:
+            case = zoo_case(rng, fam, c=cb, e=e, maxw=0, absolute=True)
         if ' S ' in case:
             head, _ = case.rsplit(' S ', 1)
             case = head + ' ' + J('S', rng.randrange(2), rng.randrange(2), rng.choice(W), rng.randrange(3))
